@@ -485,6 +485,8 @@ pub fn scenario_probes(sc: &Scenario, stats: &mut crate::core::Stats) {
             }
         }
     }
+    let widest = sc.net.shapes().map(|v| v.iter().map(|s| s.count()).max().unwrap_or(0)).unwrap_or(0);
+    stats.probe("width_ge_1024", widest >= 1024);
     stats.probe("layer_conv", kinds[1]);
     stats.probe("layer_deconv", kinds[2]);
     stats.probe("layer_maxpool", kinds[3]);
